@@ -14,3 +14,9 @@ PROP = dict(
             dict(kind="trace", name="TraceTTL", module="TraceTTL", cfg=["TraceTTL.cfg", "TraceTTL_open.cfg"], pkg="generics", test="TestVerifTTLTrace",
                  harness=["generics/ttltrace_test.go"])],
 )
+
+# coverage extension CX2 (lib/ext/CX2.py, DESIGN.md section 0.5): the other members of package generics (Set, Fanout*). No listed property
+# speaks of them, so these stages are ADVISORY: they run in the thorough tier, their divergences are logged and kept in the evidence, but
+# they never produce a VIOLATION of C32.
+import extstages  # noqa: E402
+PROP["stages"] += extstages.pick("CX2", ["GenSet", "Fanout", "Fanout-ideal", "FanoutConc", "FanoutConc-ceil", "TraceFanoutConc-race"], advisory=True, tiers=("thorough",))
